@@ -7,13 +7,13 @@ PROPS = {
     "C03": {"level": "proof", "lemma_files": ENGINE, "conformance": []},
     "C04": {"level": "proof", "lemma_files": ENGINE, "conformance": []},
     "C05": {"level": "proof", "lemma_files": ENGINE, "conformance": []},
-    "C06": {"level": "proof", "lemma_files": ENGINE + ["contracts/storage_laws.py"], "conformance": []},
-    "C07": {"level": "proof", "lemma_files": ENGINE, "conformance": []},
+    "C06": {"level": "proof", "lemma_files": ENGINE + ["contracts/storage_laws.py", "contracts/codec_laws.py"], "conformance": []},
+    "C07": {"level": "proof", "lemma_files": ENGINE + ["contracts/codec_laws.py"], "conformance": []},
     "C08": {"level": "proof", "lemma_files": ENGINE + ["contracts/state_index.py", "contracts/codec_laws.py"], "conformance": []},
     "C09": {"level": "proof", "lemma_files": ["contracts/storage_laws.py"], "conformance": [],
             "bounded": ["contracts.bounded_storage.run"]},
     "C10": {"level": "proof", "lemma_files": ENGINE, "conformance": []},
-    "C11": {"level": "proof", "lemma_files": ENGINE + ["contracts/state_index.py"], "conformance": []},
+    "C11": {"level": "proof", "lemma_files": ENGINE + ["contracts/state_index.py", "contracts/codec_laws.py"], "conformance": []},
     "C12": {"level": "proof", "lemma_files": ENGINE + ["contracts/path_laws.py"], "conformance": ["str"]},
     "C13": {"level": "proof", "lemma_files": ["contracts/path_laws.py"], "conformance": ["str"]},
     "C14": {"level": "proof", "lemma_files": ENGINE, "conformance": []},
